@@ -288,6 +288,7 @@ class Lexer:
         return False
 
     def accept_path(self, *, carry: bool = False) -> None:
+        depth = len(self.path_stack)
         self.path_stack.append(
             PathToken(
                 type_=TokenType.PATH,
@@ -405,6 +406,9 @@ class Lexer:
                     self.error("expected a string, index or property name")
             else:
                 self.backup()
+                if len(self.path_stack) > depth + 1:
+                    # A bracket was left open.
+                    self.error("unbalanced brackets")
                 return
 
     def accept_string(self, *, quote: str) -> None:
